@@ -77,9 +77,35 @@ def raw_arg_scenarios():
     return scns
 
 
+def deep_answer_scenarios():
+    """answers that are deep terms whose innermost part is bound late, collected by hand and through
+    evaluate_bounded (a search or a dereference deeper than the limit ends the collection: any prefix)"""
+    X, Y = V(0), V(1)
+    script = {"val/1": [clause(C("val", A("a"))), clause(C("val", A("b"))), clause(C("val", C("f", I(1))))],
+              "deep/1": [clause(C("deep", X), conj(call(C("=", X, lst([I(i) for i in range(100)] + [Y]))), call(C("val", Y))))],
+              "deep2/2": [clause(C("deep2", X, Y), conj(call(C("mk", X, V(2))), call(C("val", V(2))), call(C("=", Y, V(2)))))],
+              "mk/2": [clause(C("mk", lst([V(0)]), V(0))), clause(C("mk", lst([I(0)], V(0)), V(1)), call(C("mk", V(0), V(1))))],
+              "len/1": [clause(C("len", NIL))] }
+    sk = lst([V(900 + i) for i in range(60)])      # a list skeleton of 60 unknowns: mk walks down and puts the late variable at the end
+    scns = []
+    for g, qnv in ((C("deep", V(0)), 1), (C("deep2", lst([V(i + 1) for i in range(40)]), V(0)), 41)):
+        for via in (None, {"exc": "Exception", "prefix": True}, {"exc": "Exception", "prefix": True, "limit": 120}, {"exc": "Exception", "limit": 5000}, {"exc": "KeyboardInterrupt", "limit": 5000}):
+            op = {"op": "solve", "e": 1, "r": 1, "goal": g, "qnv": qnv, "k": 0 if not via or via.get("exc") == "Exception" else 2}
+            if via:
+                op["via"] = via
+            scns.append({"scripts": {"P": script}, "py": True, "keys": [],
+                         "steps": [[{"op": "load", "e": 1, "script": "P", "ow": True}], [op], [{"op": "solve", "e": 1, "r": 2, "goal": C("val", V(0)), "qnv": 1, "k": 0}]]})
+    return scns
+
+
 def run(tier, seed):
     chk = Check("C15", tier, seed)
     rnd = random.Random(seed)
+    SG = gen.scale_groups()
+    for s_ in SG["chain"]:
+        s_["py"] = True
+    chk.machine_family("long-variable-chains", SG["chain"], opts=dict(OPTS, budget_extra=20000000, must_complete=True), features=features, max_steps=30000)
+    chk.machine_family("deep-answers-by-hand-and-bounded", deep_answer_scenarios(), opts=dict(OPTS, budget_extra=20000000, must_complete=True), features=features, max_steps=30000)
     chk.machine_family("binding-orders", scenarios(), opts=OPTS, features=features)
     chk.machine_family("raw-goal-arguments", raw_arg_scenarios(), opts=OPTS, features=features)
     n = 1500 if tier == "quick" else 15000
